@@ -16,6 +16,33 @@ R = {
  "C17-A": ("C17", False, "Namespaces.tla Family 'ponly' (deeper documents re-binding one prefix at 3+ levels), encode failures matched by a complete witness list rather than a structural matcher"),
  "C17-B": ("C17", True, ""),
 }
+R2 = {
+ "C02-A": ("C02", True, ""), "C02-B": ("C02", True, ""),
+ "C05-A": ("C05", False, "Converters.tla v2: union-with-pattern element and attribute; every scalar slot of the decoded data replaced by a catalogue of 19 typed values and encoded in strict mode, the result judged by the spec's Valid"),
+ "C05-B": ("C05", False, "Converters.tla v2: 0-2 repeated list-valued children (the name-keyed conventions return a list of lists)"),
+ "C06-A": ("C06", False, "lazy depths 2 and 3 judged on verdict and errors (with paths); identity constraints declared on the intermediate element (Identity.tla Level inner)"),
+ "C06-B": ("C06", False, "same strengthening as C06-A (lazy depth beyond the document depth, root-level key references)"),
+ "C07-A": ("C07", True, ""),
+ "C07-B": ("C07", False, "Derivation.tla mode fixedws: fixed values against the whiteSpace facet of integer / token / normalizedString / string, plain and as simple content"),
+ "C10-A": ("C10", False, "operation decode(validation='skip'); pool schemas with user-defined facet chains; pair-complete histories (every ordered pair of documents as consecutive calls)"),
+ "C10-B": ("C10", False, "pool schemas with unions of overlapping member types; pair-complete histories"),
+ "C11-A": ("C11", False, "Lazy.tla settings in which a LAZY load exceeds MaxElems (the element limit does not apply to lazy resources)"),
+ "C11-B": ("C11", False, "ill-typed values in identity-constraint fields (key / unique / keyref over int, decimal, date, boolean) x 6 entry points"),
+ "C13-A": ("C13", True, ""),
+ "C13-B": ("C13", False, "Defuse.tla localities extended to data supplied with a base_url (channels text@remote, bytes@remote, bytesio@remote, text@local, bytesio@local)"),
+ "C14-A": ("C14", False, "AttrRestriction.tla: (base, derived) pairs of attribute uses and wildcards, inclusion decided over the attribute-set space"),
+ "C14-B": ("C14", False, "ContentModel.tla family RestrA: xs:all groups of 2-3 elements under the edit operators"),
+ "C15-A": ("C15", False, "ContentModel.tla family Mid3: sequences leaf, nested group, leaf"),
+ "C15-B": ("C15", False, "ContentModel.tla family LeafVarF: a substitution head whose member lives in a foreign namespace (Members(f) = {f, o}) against wildcards"),
+ "C18-A": ("C18", False, "scheduler: threads reach build() at seeded arrival times spread over the measured duration of an undisturbed build (before: every thread queued on the lock early, the final phase was never raced); caught by Trace_Threads (fast path before the flag)"),
+ "C18-B": ("C18", False, "XSD 1.1 schema with assertion facets / complex-type assertions validated with different documents per thread"),
+ "C19-A": ("C19", True, ""),
+ "C19-B": ("C19", False, "Validator.tla: strict wildcard of another namespace in item, deviation unknownext (a child without global declaration)"),
+ "C20-A": ("C20", False, "identity-constraint documents (Identity.tla, constraint on the root or on the intermediate element) under 5 path selections"),
+ "C20-B": ("C20", False, "global declarations that share names with local ones in the Validator schema; wildcard-terminated paths (.../*); also caught by C06 (lazy)"),
+}
+if len(sys.argv) > 1 and sys.argv[1] == "2":
+    R = R2
 for mid, (chk, first, how) in R.items():
     pid, v = mid.split("-")
     src = pathlib.Path(f"/tmp/mut/{pid}/out")
